@@ -47,41 +47,43 @@ theorem nodeChunks_frames {α} (A : Arith α) (ue ex : Bool) (target : α) (fuel
       · cases h
       · split at h
         · cases h
-        · rename_i hsz
-          simp only [map_eq_ok] at h
-          obtain ⟨cs', h1, rfl⟩ := h
-          have hlen : (1 : Int) ≤ (if length > 255 then 255 else length) ∧ (if length > 255 then 255 else length) ≤ 255 := by
-            split <;> omega
-          obtain ⟨i1, i2, i3, i4, i5⟩ := ih _ _ _ cs' (by split <;> omega) h1
-          refine ⟨?_, ?_, ?_, by simp, ?_⟩
-          · simp only [List.map_cons, List.sum_cons, i1]
-            split <;> omega
-          · intro c hc
-            rcases List.mem_cons.mp hc with rfl | hc
-            · exact hlen
-            · exact i2 c hc
-          · intro c hc
-            cases cs' with
-            | nil => simp at hc
-            | cons x r =>
-              simp only [List.dropLast_cons_cons, List.mem_cons] at hc
-              rcases hc with rfl | hc
-              · by_cases hb : length > 255
-                · simp [hb]
-                · exfalso
-                  simp only [hb, if_false] at i1
-                  have h1 := i2 x (by simp)
-                  have h2 := lens_nonneg r (fun c hc => (i2 c (by simp [hc])).1)
-                  simp only [List.map_cons, List.sum_cons] at i1
-                  omega
-              · exact i3 c hc
-          · intro _
-            cases cs' with
-            | nil => simp only [List.length_cons, List.length_nil]; omega
-            | cons x r =>
-              have := i5 (by simp)
-              simp only [List.length_cons, Nat.mul_add, Nat.mul_one] at this ⊢
-              omega
+        · split at h
+          · cases h
+          · rename_i hsz
+            simp only [map_eq_ok] at h
+            obtain ⟨cs', h1, rfl⟩ := h
+            have hlen : (1 : Int) ≤ (if length > 255 then 255 else length) ∧ (if length > 255 then 255 else length) ≤ 255 := by
+              split <;> omega
+            obtain ⟨i1, i2, i3, i4, i5⟩ := ih _ _ _ cs' (by split <;> omega) h1
+            refine ⟨?_, ?_, ?_, by simp, ?_⟩
+            · simp only [List.map_cons, List.sum_cons, i1]
+              split <;> omega
+            · intro c hc
+              rcases List.mem_cons.mp hc with rfl | hc
+              · exact hlen
+              · exact i2 c hc
+            · intro c hc
+              cases cs' with
+              | nil => simp at hc
+              | cons x r =>
+                simp only [List.dropLast_cons_cons, List.mem_cons] at hc
+                rcases hc with rfl | hc
+                · by_cases hb : length > 255
+                  · simp [hb]
+                  · exfalso
+                    simp only [hb, if_false] at i1
+                    have h1 := i2 x (by simp)
+                    have h2 := lens_nonneg r (fun c hc => (i2 c (by simp [hc])).1)
+                    simp only [List.map_cons, List.sum_cons] at i1
+                    omega
+                · exact i3 c hc
+            · intro _
+              cases cs' with
+              | nil => simp only [List.length_cons, List.length_nil]; omega
+              | cons x r =>
+                have := i5 (by simp)
+                simp only [List.length_cons, Nat.mul_add, Nat.mul_one] at this ⊢
+                omega
 
 
 /-! ## byte level: what the independent reader sees -/
@@ -427,6 +429,19 @@ theorem clamp8_range (d : Int) : -128 ≤ clamp8 d ∧ clamp8 d ≤ 127 := by
   · omega
   · split <;> omega
 
+/-- the range check of `add_pitch_node` (f788cbf): when it does not throw, the step is an `int16_t` -/
+theorem chunkDelta_checked (d : Int)
+    (h : ¬ ((decide (d < Tables.mdsdrv_pitch_step_min) || decide (d > Tables.mdsdrv_pitch_step_max)) = true)) :
+    -32768 ≤ d ∧ d ≤ 32767 := by
+  have e1 : Tables.mdsdrv_pitch_step_min = -32768 := rfl
+  have e2 : Tables.mdsdrv_pitch_step_max = 32767 := rfl
+  rw [e1, e2] at h
+  by_cases h1 : d < -32768
+  · exact absurd (by simp [h1]) h
+  · by_cases h2 : d > 32767
+    · exact absurd (by simp [h2]) h
+    · omega
+
 theorem nodeChunks_range {α} (A : Arith α) (ue ex : Bool) (target : α) (fuel size : Nat) (length : Int) (counter : α)
     (cs : List RawChunk) (h : nodeChunks A ue ex target fuel size length counter = .ok cs) :
     ∀ c ∈ cs, -32768 ≤ c.start ∧ c.start ≤ 32767 ∧ -32768 ≤ c.delta ∧ c.delta ≤ 32767 ∧
@@ -443,29 +458,29 @@ theorem nodeChunks_range {α} (A : Arith α) (ue ex : Bool) (target : α) (fuel 
     · simp only [hl, if_false] at h
       split at h
       · cases h
-      · rename_i hc
+      · rename_i hst
         split at h
         · cases h
-        · simp only [map_eq_ok] at h
-          obtain ⟨cs', h1, rfl⟩ := h
-          intro c hc'
-          rcases List.mem_cons.mp hc' with rfl | hc'
-          · have hs := chunkStart_range A counter
-            have hd := i16_range (A.trunc (A.mul256 (A.divNat (A.sub target counter) length.toNat)))
-            have hk := clamp8_range (chunkDelta A target counter length)
-            simp only [chunkDelta] at hc hk ⊢
-            cases ex with
-            | true => simp; omega
-            | false =>
-              cases ue with
-              | false => simp; omega
-              | true =>
-                simp only [Bool.not_false, Bool.true_and, Bool.or_eq_true, decide_eq_true_eq, not_or] at hc
-                obtain ⟨h1, h2⟩ := hc
-                have h1' := mt decide_eq_true h1
-                have h2' := mt decide_eq_true h2
-                simp; omega
-          · exact ih _ _ _ cs' h1 c hc'
+        · rename_i hc
+          split at h
+          · cases h
+          · simp only [map_eq_ok] at h
+            obtain ⟨cs', h1, rfl⟩ := h
+            intro c hc'
+            rcases List.mem_cons.mp hc' with rfl | hc'
+            · have hs := chunkStart_range A counter
+              have hd := chunkDelta_checked _ hst
+              have hk := clamp8_range (chunkDelta A target counter length)
+              cases ex with
+              | true => simp; omega
+              | false =>
+                cases ue with
+                | false => simp; omega
+                | true =>
+                  simp only [Bool.not_false, Bool.true_and, Bool.or_eq_true, decide_eq_true_eq, not_or] at hc
+                  obtain ⟨h1, h2⟩ := hc
+                  simp; omega
+            · exact ih _ _ _ cs' h1 c hc'
 
 
 /-! ## envelope level -/
@@ -494,9 +509,11 @@ theorem nodeOf_spec {α} (A : Arith α) (ue ex : Bool) (size : Nat) (i t : α) (
   · cases h
   · split at h
     · cases h
-    · simp only [map_eq_ok] at h
-      obtain ⟨cs', _, rfl⟩ := h
-      rfl
+    · split at h
+      · cases h
+      · simp only [map_eq_ok] at h
+        obtain ⟨cs', _, rfl⟩ := h
+        rfl
 
 /-- node count form of the size limit: a node added behind `n ≤ 256` nodes leaves at most 256 -/
 theorem nodeOf_count {α} (A : Arith α) (ue ex : Bool) (n : Nat) (i t : α) (e : Option Int) (cs : List RawChunk)
@@ -588,10 +605,10 @@ theorem envChunks_ok {α} (A : Arith α) (ue ex : Bool) (items : List (PItem α)
 
 
 /-- `add_pitch_node` throws nothing but `invalid_argument` (compact form with extended pitch
-allowed only) and the too-long InputError -/
+allowed only), the too-long InputError and the too-steep InputError -/
 theorem nodeChunks_error {α} (A : Arith α) (ue ex : Bool) (target : α) (fuel size : Nat) (length : Int) (counter : α)
     (e : PErr) (h : nodeChunks A ue ex target fuel size length counter = .error e) :
-    e = .tooLong ∨ (e = .invalidArgument ∧ ue = true ∧ ex = false) := by
+    e = .tooLong ∨ e = .tooSteep ∨ (e = .invalidArgument ∧ ue = true ∧ ex = false) := by
   induction fuel generalizing size length counter with
   | zero => simp [nodeChunks] at h
   | succ fuel ih =>
@@ -600,23 +617,27 @@ theorem nodeChunks_error {α} (A : Arith α) (ue ex : Bool) (target : α) (fuel 
     · simp [hl] at h
     · simp only [hl, if_false] at h
       split at h
-      · rename_i hc
-        simp only [Except.error.injEq] at h
-        subst h
-        right
-        simp only [Bool.and_eq_true, Bool.not_eq_true'] at hc
-        exact ⟨rfl, hc.1.2, hc.1.1⟩
+      · simp only [Except.error.injEq] at h
+        exact Or.inr (Or.inl h.symm)
       · split at h
-        · simp only [Except.error.injEq] at h
-          exact Or.inl h.symm
-        · rw [map_eq_error] at h
-          exact ih _ _ _ h
+        · rename_i hc
+          simp only [Except.error.injEq] at h
+          subst h
+          right; right
+          simp only [Bool.and_eq_true, Bool.not_eq_true'] at hc
+          exact ⟨rfl, hc.1.2, hc.1.1⟩
+        · split at h
+          · simp only [Except.error.injEq] at h
+            exact Or.inl h.symm
+          · rw [map_eq_error] at h
+            exact ih _ _ _ h
 
 /-- the extended form never throws `invalid_argument` -/
 theorem C11_pitch_ext_total {α} (A : Arith α) (ue : Bool) (target : α) (fuel size : Nat) (length : Int) (counter : α)
-    (e : PErr) (h : nodeChunks A ue true target fuel size length counter = .error e) : e = .tooLong := by
-  rcases nodeChunks_error A ue true target fuel size length counter e h with h | ⟨_, _, h⟩
-  · exact h
+    (e : PErr) (h : nodeChunks A ue true target fuel size length counter = .error e) : e = .tooLong ∨ e = .tooSteep := by
+  rcases nodeChunks_error A ue true target fuel size length counter e h with h | h | ⟨_, _, h⟩
+  · exact Or.inl h
+  · exact Or.inr h
   · cases h
 
 end Ctrmml.MdsData
